@@ -52,7 +52,9 @@ pub(super) fn key_material(alg: u8, pat: u8, salt: u8) -> Vec<u8> {
             3 => 0xa5 ^ (i as u8).wrapping_mul(37) ^ salt,
             _ => {
                 // splitmix-style bytes
-                let mut z = (i as u64 + 1).wrapping_mul(0x9e3779b97f4a7c15) ^ ((salt as u64) << 32) ^ alg as u64;
+                let mut z = (i as u64 + 1).wrapping_mul(0x9e3779b97f4a7c15)
+                    ^ ((salt as u64) << 32)
+                    ^ alg as u64;
                 z = (z ^ (z >> 30)).wrapping_mul(0xbf58476d1ce4e5b9);
                 (z >> 24) as u8
             }
@@ -101,7 +103,13 @@ pub(super) enum Dec {
     Panic,
 }
 
-pub(super) fn decode_vs(prov: &KeySetProvider, bytes: &[u8], alg: u8, s2c: &[u8], c2s: &[u8]) -> (Dec, String) {
+pub(super) fn decode_vs(
+    prov: &KeySetProvider,
+    bytes: &[u8],
+    alg: u8,
+    s2c: &[u8],
+    c2s: &[u8],
+) -> (Dec, String) {
     let ks = prov.get();
     match common::catch(|| ks.decode_cookie(bytes)) {
         Err(p) => (Dec::Panic, p),
@@ -224,7 +232,10 @@ fn key_of(cfg: &Cfg, s: &St) -> Key {
         s.r.min(h + 2),
         nkeys,
         if near { Some(id_offset) } else { None },
-        s.out.iter().map(|c| ((s.r - c.rot).min(h + 2), c.alg)).collect(),
+        s.out
+            .iter()
+            .map(|c| ((s.r - c.rot).min(h + 2), c.alg))
+            .collect(),
     )
 }
 
@@ -252,13 +263,19 @@ fn apply(ctx: &Ctx, t: &mut Tally, cfg: &Cfg, s: &mut St, op: u8) -> String {
         let bytes = match common::catch(|| ks.encode_cookie(&dc)) {
             Ok(b) => b,
             Err(p) => {
-                ctx.violation("C26:encode-panic", format!("encode_cookie panicked: {p}"), trace());
+                ctx.violation(
+                    "C26:encode-panic",
+                    format!("encode_cookie panicked: {p}"),
+                    trace(),
+                );
                 return "encode-panic".into();
             }
         };
         t.issued += 1;
         let want_id = cfg.id0().wrapping_add(s.r as u32);
-        let got_id = bytes.get(0..4).map(|b| u32::from_be_bytes(b.try_into().unwrap()));
+        let got_id = bytes
+            .get(0..4)
+            .map(|b| u32::from_be_bytes(b.try_into().unwrap()));
         if got_id != Some(want_id) {
             ctx.violation(
                 "C26:new-cookie-not-newest-key",
@@ -267,18 +284,32 @@ fn apply(ctx: &Ctx, t: &mut Tally, cfg: &Cfg, s: &mut St, op: u8) -> String {
             );
         }
         if contains(&bytes, &s2c[..16]) || contains(&bytes, &c2s[..16]) {
-            ctx.violation("C26:session-key-in-clear", "cookie contains session key bytes in clear", trace());
+            ctx.violation(
+                "C26:session-key-in-clear",
+                "cookie contains session key bytes in clear",
+                trace(),
+            );
         }
         obs.push_str(&format!("I{alg}id={got_id:?}len={}:", bytes.len()));
         // keep at most one outstanding cookie per (age, alg) (the abstraction of the key)
         if !s.out.iter().any(|c| c.rot == s.r && c.alg == alg) {
-            s.out.push(std::sync::Arc::new(Issued { bytes, alg, s2c, c2s, rot: s.r }));
+            s.out.push(std::sync::Arc::new(Issued {
+                bytes,
+                alg,
+                s2c,
+                c2s,
+                rot: s.r,
+            }));
         } else {
             // still check that this very cookie decodes now
             let (d, why) = decode_vs(&s.prov, &bytes, alg, &s2c, &c2s);
             t.decodes += 1;
             if d != Dec::Same {
-                ctx.violation("C26:valid-cookie-rejected", format!("fresh cookie does not decode to its keys: {d:?} {why}"), trace());
+                ctx.violation(
+                    "C26:valid-cookie-rejected",
+                    format!("fresh cookie does not decode to its keys: {d:?} {why}"),
+                    trace(),
+                );
             }
         }
     }
@@ -299,10 +330,16 @@ fn apply(ctx: &Ctx, t: &mut Tally, cfg: &Cfg, s: &mut St, op: u8) -> String {
         match (d, age <= h) {
             (Dec::Same, true) => t.valid += 1,
             (Dec::Rejected, false) => t.expired += 1,
-            (Dec::Panic, _) => ctx.violation("C26:decode-panic", format!("decode_cookie panicked: {why}"), trace()),
+            (Dec::Panic, _) => ctx.violation(
+                "C26:decode-panic",
+                format!("decode_cookie panicked: {why}"),
+                trace(),
+            ),
             (Dec::Differs, _) => ctx.violation(
                 "C26:decoded-keys-differ",
-                format!("cookie of age {age} (history {h}) decodes to other keys/algorithm ({why})"),
+                format!(
+                    "cookie of age {age} (history {h}) decodes to other keys/algorithm ({why})"
+                ),
                 trace(),
             ),
             (Dec::Rejected, true) => ctx.violation(
@@ -332,7 +369,9 @@ fn apply(ctx: &Ctx, t: &mut Tally, cfg: &Cfg, s: &mut St, op: u8) -> String {
         }
         let foreign = probe::build(
             &probe::View {
-                keys: (0..nkeys).map(|_| AesSivCmac512::new_random().key_bytes().to_vec()).collect(),
+                keys: (0..nkeys)
+                    .map(|_| AesSivCmac512::new_random().key_bytes().to_vec())
+                    .collect(),
                 id_offset,
                 primary: slot as u32,
             },
@@ -346,8 +385,16 @@ fn apply(ctx: &Ctx, t: &mut Tally, cfg: &Cfg, s: &mut St, op: u8) -> String {
         t.decodes += 1;
         match d {
             Dec::Rejected => t.foreign += 1,
-            Dec::Panic => ctx.violation("C26:decode-panic", format!("decode of foreign cookie panicked: {why}"), trace()),
-            _ => ctx.violation("C26:foreign-cookie-accepted", format!("cookie of a different key set (slot {slot}) decodes: {d:?}"), trace()),
+            Dec::Panic => ctx.violation(
+                "C26:decode-panic",
+                format!("decode of foreign cookie panicked: {why}"),
+                trace(),
+            ),
+            _ => ctx.violation(
+                "C26:foreign-cookie-accepted",
+                format!("cookie of a different key set (slot {slot}) decodes: {d:?}"),
+                trace(),
+            ),
         }
         obs.push(if d == Dec::Rejected { 'f' } else { 'F' });
     }
@@ -355,9 +402,17 @@ fn apply(ctx: &Ctx, t: &mut Tally, cfg: &Cfg, s: &mut St, op: u8) -> String {
 }
 
 fn explore(ctx: &Ctx, cfg: Cfg) {
-    let init = St { prov: cfg.fresh(), r: 0, out: vec![], ops: vec![] };
+    let init = St {
+        prov: cfg.fresh(),
+        r: 0,
+        out: vec![],
+        ops: vec![],
+    };
     let mut maxr = 0u64;
-    let mut t = Tally { full: !ctx.quick(), ..Tally::default() };
+    let mut t = Tally {
+        full: !ctx.quick(),
+        ..Tally::default()
+    };
     let mut distinct = Vec::new();
     let stats = common::bfs(
         vec![init],
@@ -388,7 +443,10 @@ fn explore(ctx: &Ctx, cfg: Cfg) {
     if stats.fixpoint {
         ctx.inc("configs_at_fixpoint");
     } else {
-        ctx.cap_hit(&format!("{}: depth bound reached before fixpoint", cfg.tag()));
+        ctx.cap_hit(&format!(
+            "{}: depth bound reached before fixpoint",
+            cfg.tag()
+        ));
     }
     if cfg.start.is_none() || cfg.start == Some(u32::MAX) {
         ctx.sample(format!(
@@ -462,7 +520,10 @@ fn rkey_of(cfg: &RCfg, s: &RSt) -> RKey {
         nkeys,
         s.r - s.lo,
         s.r - s.m,
-        s.out.iter().map(|c| ((s.r - c.rot).min(cfg.sat()), c.alg)).collect(),
+        s.out
+            .iter()
+            .map(|c| ((s.r - c.rot).min(cfg.sat()), c.alg))
+            .collect(),
     )
 }
 
@@ -482,13 +543,19 @@ fn apply_r(ctx: &Ctx, t: &mut Tally, cfg: &RCfg, s: &mut RSt, op: u8) -> String 
                 let bytes = match common::catch(|| ks.encode_cookie(&mk_cookie(alg, &s2c, &c2s))) {
                     Ok(b) => b,
                     Err(p) => {
-                        ctx.violation("C26:encode-panic", format!("encode_cookie panicked: {p}"), trace());
+                        ctx.violation(
+                            "C26:encode-panic",
+                            format!("encode_cookie panicked: {p}"),
+                            trace(),
+                        );
                         return "encode-panic".into();
                     }
                 };
                 t.issued += 1;
                 let want_id = id0.wrapping_add(s.r as u32);
-                let got_id = bytes.get(0..4).map(|b| u32::from_be_bytes(b.try_into().unwrap()));
+                let got_id = bytes
+                    .get(0..4)
+                    .map(|b| u32::from_be_bytes(b.try_into().unwrap()));
                 if got_id != Some(want_id) {
                     ctx.violation(
                         "C26:new-cookie-not-newest-key",
@@ -498,12 +565,22 @@ fn apply_r(ctx: &Ctx, t: &mut Tally, cfg: &RCfg, s: &mut RSt, op: u8) -> String 
                 }
                 obs.push_str(&format!("I{alg}id={got_id:?}:"));
                 if !s.out.iter().any(|c| c.rot == s.r && c.alg == alg) {
-                    s.out.push(std::sync::Arc::new(Issued { bytes, alg, s2c, c2s, rot: s.r }));
+                    s.out.push(std::sync::Arc::new(Issued {
+                        bytes,
+                        alg,
+                        s2c,
+                        c2s,
+                        rot: s.r,
+                    }));
                 } else {
                     let (d, why) = decode_vs(&s.prov, &bytes, alg, &s2c, &c2s);
                     t.decodes += 1;
                     if d != Dec::Same {
-                        ctx.violation("C26:valid-cookie-rejected", format!("fresh cookie does not decode to its keys: {d:?} {why}"), trace());
+                        ctx.violation(
+                            "C26:valid-cookie-rejected",
+                            format!("fresh cookie does not decode to its keys: {d:?} {why}"),
+                            trace(),
+                        );
                     }
                 }
             }
@@ -530,7 +607,10 @@ fn apply_r(ctx: &Ctx, t: &mut Tally, cfg: &RCfg, s: &mut RSt, op: u8) -> String 
                 other => {
                     ctx.violation(
                         "C26:reload-fails",
-                        format!("store + load with history {h2} fails: {:?}", other.map(|r| r.map(|_| ()))),
+                        format!(
+                            "store + load with history {h2} fails: {:?}",
+                            other.map(|r| r.map(|_| ()))
+                        ),
                         trace(),
                     );
                     return "reload-fails".into();
@@ -582,8 +662,23 @@ fn apply_r(ctx: &Ctx, t: &mut Tally, cfg: &RCfg, s: &mut RSt, op: u8) -> String 
 }
 
 fn explore_reload(ctx: &Ctx, cfg: RCfg) {
-    let init = RSt { prov: Cfg { h: 0, start: cfg.start }.fresh(), r: 0, hist: 0, lo: 0, m: 0, out: vec![], ops: vec![] };
-    let mut t = Tally { full: !ctx.quick(), ..Tally::default() };
+    let init = RSt {
+        prov: Cfg {
+            h: 0,
+            start: cfg.start,
+        }
+        .fresh(),
+        r: 0,
+        hist: 0,
+        lo: 0,
+        m: 0,
+        out: vec![],
+        ops: vec![],
+    };
+    let mut t = Tally {
+        full: !ctx.quick(),
+        ..Tally::default()
+    };
     let mut distinct = Vec::new();
     let mut maxr = 0u64;
     let nops = 2 + cfg.hmax as u8 + 1;
@@ -630,7 +725,10 @@ fn explore_reload(ctx: &Ctx, cfg: RCfg) {
     if stats.fixpoint {
         ctx.inc("configs_at_fixpoint");
     } else {
-        ctx.cap_hit(&format!("reload search {}: depth bound reached before fixpoint", cfg.tag()));
+        ctx.cap_hit(&format!(
+            "reload search {}: depth bound reached before fixpoint",
+            cfg.tag()
+        ));
     }
     ctx.sample(format!(
         "reload search {}: fixpoint after depth {} with {} abstract states / {} transitions, up to {} rotations",
@@ -652,7 +750,13 @@ fn tamper_base(cfg: &Cfg, at: usize, alg: u8) -> (KeySetProvider, Issued) {
     for r in 0..=cfg.h {
         if r == at {
             let bytes = p.get().encode_cookie(&mk_cookie(alg, &s2c, &c2s));
-            issued = Some(Issued { bytes, alg, s2c: s2c.clone(), c2s: c2s.clone(), rot: r as u64 });
+            issued = Some(Issued {
+                bytes,
+                alg,
+                s2c: s2c.clone(),
+                c2s: c2s.clone(),
+                rot: r as u64,
+            });
         }
         if r < cfg.h {
             p.rotate();
@@ -666,12 +770,20 @@ fn tamper_case(ctx: &Ctx, cfg: &Cfg, at: usize, alg: u8, masks: &[u8]) {
     let base = format!("{};at={at};alg={alg}", cfg.tag());
     let (d, _) = decode_vs(&p, &c.bytes, c.alg, &c.s2c, &c.c2s);
     if d != Dec::Same {
-        ctx.violation("C26:valid-cookie-rejected", format!("untampered base cookie: {d:?}"), format!("tamper;{base};byte=0;mask=0"));
+        ctx.violation(
+            "C26:valid-cookie-rejected",
+            format!("untampered base cookie: {d:?}"),
+            format!("tamper;{base};byte=0;mask=0"),
+        );
         return;
     }
     let declared = 22 + u16::from_be_bytes([c.bytes[4], c.bytes[5]]) as usize;
     if declared != c.bytes.len() {
-        ctx.violation("C26:declared-length", format!("cookie of {} bytes declares {declared}", c.bytes.len()), format!("tamper;{base};byte=0;mask=0"));
+        ctx.violation(
+            "C26:declared-length",
+            format!("cookie of {} bytes declares {declared}", c.bytes.len()),
+            format!("tamper;{base};byte=0;mask=0"),
+        );
     }
     let mut t = c.bytes.clone();
     for i in 0..declared.min(c.bytes.len()) {
@@ -683,9 +795,21 @@ fn tamper_case(ctx: &Ctx, cfg: &Cfg, at: usize, alg: u8, masks: &[u8]) {
             match d {
                 Dec::Rejected => {
                     ctx.inc("tampered_rejected");
-                    if i < 4 { ctx.inc("tampered_id_rejected") } else if i < 6 { ctx.inc("tampered_len_rejected") } else if i < 22 { ctx.inc("tampered_nonce_rejected") } else { ctx.inc("tampered_ct_rejected") }
+                    if i < 4 {
+                        ctx.inc("tampered_id_rejected")
+                    } else if i < 6 {
+                        ctx.inc("tampered_len_rejected")
+                    } else if i < 22 {
+                        ctx.inc("tampered_nonce_rejected")
+                    } else {
+                        ctx.inc("tampered_ct_rejected")
+                    }
                 }
-                Dec::Panic => ctx.violation("C26:decode-panic", format!("decode of tampered cookie panicked: {why}"), format!("tamper;{base};byte={i};mask={m}")),
+                Dec::Panic => ctx.violation(
+                    "C26:decode-panic",
+                    format!("decode of tampered cookie panicked: {why}"),
+                    format!("tamper;{base};byte={i};mask={m}"),
+                ),
                 _ => ctx.violation(
                     "C26:tampered-cookie-accepted",
                     format!("cookie with byte {i} ^ {m:#04x} decodes ({d:?})"),
@@ -701,8 +825,16 @@ fn tamper_case(ctx: &Ctx, cfg: &Cfg, at: usize, alg: u8, masks: &[u8]) {
         ctx.inc("decodes");
         match d {
             Dec::Rejected => ctx.inc("truncated_rejected"),
-            Dec::Panic => ctx.violation("C26:decode-panic", format!("decode of truncated cookie panicked: {why}"), format!("trunc;{base};len={l}")),
-            _ => ctx.violation("C26:truncated-cookie-accepted", format!("first {l} of {} bytes decode ({d:?})", c.bytes.len()), format!("trunc;{base};len={l}")),
+            Dec::Panic => ctx.violation(
+                "C26:decode-panic",
+                format!("decode of truncated cookie panicked: {why}"),
+                format!("trunc;{base};len={l}"),
+            ),
+            _ => ctx.violation(
+                "C26:truncated-cookie-accepted",
+                format!("first {l} of {} bytes decode ({d:?})", c.bytes.len()),
+                format!("trunc;{base};len={l}"),
+            ),
         }
     }
     // observation only: bytes after the declared length are outside the statement
@@ -733,15 +865,29 @@ fn key_grid(ctx: &Ctx) {
                 ctx.inc("decodes");
                 ctx.inc("grid_cases");
                 if d != Dec::Same {
-                    ctx.violation("C26:valid-cookie-rejected", format!("session keys alg={alg} s2c pattern {ps} c2s pattern {pc}: {d:?} {why}"), format!("grid;alg={alg};ps={ps};pc={pc}"));
+                    ctx.violation(
+                        "C26:valid-cookie-rejected",
+                        format!(
+                            "session keys alg={alg} s2c pattern {ps} c2s pattern {pc}: {d:?} {why}"
+                        ),
+                        format!("grid;alg={alg};ps={ps};pc={pc}"),
+                    );
                 }
                 // two cookies for the same keys must differ (fresh nonce) – confidentiality
                 let again = p.get().encode_cookie(&mk_cookie(alg, &s2c, &c2s));
                 if again == bytes {
-                    ctx.violation("C26:cookie-not-randomised", "two cookies for the same session are byte-identical", format!("grid;alg={alg};ps={ps};pc={pc}"));
+                    ctx.violation(
+                        "C26:cookie-not-randomised",
+                        "two cookies for the same session are byte-identical",
+                        format!("grid;alg={alg};ps={ps};pc={pc}"),
+                    );
                 }
                 if ps >= 2 && (contains(&bytes, &s2c[..16]) || contains(&bytes, &c2s[..16])) {
-                    ctx.violation("C26:session-key-in-clear", "cookie contains session key bytes in clear", format!("grid;alg={alg};ps={ps};pc={pc}"));
+                    ctx.violation(
+                        "C26:session-key-in-clear",
+                        "cookie contains session key bytes in clear",
+                        format!("grid;alg={alg};ps={ps};pc={pc}"),
+                    );
                 }
                 ctx.distinct(common::hash_of(&("grid", alg, ps, pc)));
             }
@@ -754,7 +900,9 @@ fn key_grid(ctx: &Ctx) {
 // ---------------------------------------------------------------------------------
 
 pub(super) fn field<'a>(parts: &'a [&'a str], name: &str) -> Option<&'a str> {
-    parts.iter().find_map(|p| p.strip_prefix(name).and_then(|r| r.strip_prefix('=')))
+    parts
+        .iter()
+        .find_map(|p| p.strip_prefix(name).and_then(|r| r.strip_prefix('=')))
 }
 
 fn parse_cfg(parts: &[&str]) -> Option<Cfg> {
@@ -770,11 +918,21 @@ fn replay(ctx: &Ctx, trace: &str) -> String {
     let parts: Vec<&str> = trace.split(';').collect();
     match parts[0] {
         "seq" => {
-            let Some(cfg) = parse_cfg(&parts) else { return "bad trace".into() };
+            let Some(cfg) = parse_cfg(&parts) else {
+                return "bad trace".into();
+            };
             let ops = field(&parts, "ops").unwrap_or("");
-            let mut s = St { prov: cfg.fresh(), r: 0, out: vec![], ops: vec![] };
+            let mut s = St {
+                prov: cfg.fresh(),
+                r: 0,
+                out: vec![],
+                ops: vec![],
+            };
             let mut obs = Vec::new();
-            let mut t = Tally { full: true, ..Tally::default() };
+            let mut t = Tally {
+                full: true,
+                ..Tally::default()
+            };
             for ch in ops.bytes() {
                 obs.push(apply(ctx, &mut t, &cfg, &mut s, ch - b'0'));
             }
@@ -785,28 +943,58 @@ fn replay(ctx: &Ctx, trace: &str) -> String {
                 Some("new") | None => None,
                 Some(x) => x.parse().ok(),
             };
-            let hmax = field(&parts, "hmax").and_then(|x| x.parse().ok()).unwrap_or(4);
+            let hmax = field(&parts, "hmax")
+                .and_then(|x| x.parse().ok())
+                .unwrap_or(4);
             let cfg = RCfg { start, hmax };
-            let mut s = RSt { prov: Cfg { h: 0, start }.fresh(), r: 0, hist: 0, lo: 0, m: 0, out: vec![], ops: vec![] };
-            let mut t = Tally { full: true, ..Tally::default() };
+            let mut s = RSt {
+                prov: Cfg { h: 0, start }.fresh(),
+                r: 0,
+                hist: 0,
+                lo: 0,
+                m: 0,
+                out: vec![],
+                ops: vec![],
+            };
+            let mut t = Tally {
+                full: true,
+                ..Tally::default()
+            };
             let mut obs = Vec::new();
             for ch in field(&parts, "ops").unwrap_or("").bytes() {
                 obs.push(apply_r(ctx, &mut t, &cfg, &mut s, ch - b'0'));
             }
-            format!("{} slack_decoded={} slack_rejected={}", obs.join("|"), t.slack_decoded, t.slack_rejected)
+            format!(
+                "{} slack_decoded={} slack_rejected={}",
+                obs.join("|"),
+                t.slack_decoded,
+                t.slack_rejected
+            )
         }
         "tamper" | "trunc" => {
-            let Some(cfg) = parse_cfg(&parts) else { return "bad trace".into() };
-            let at: usize = field(&parts, "at").and_then(|x| x.parse().ok()).unwrap_or(0);
-            let alg: u8 = field(&parts, "alg").and_then(|x| x.parse().ok()).unwrap_or(0);
+            let Some(cfg) = parse_cfg(&parts) else {
+                return "bad trace".into();
+            };
+            let at: usize = field(&parts, "at")
+                .and_then(|x| x.parse().ok())
+                .unwrap_or(0);
+            let alg: u8 = field(&parts, "alg")
+                .and_then(|x| x.parse().ok())
+                .unwrap_or(0);
             let (p, c) = tamper_base(&cfg, at, alg);
             let mut t = c.bytes.clone();
             if parts[0] == "tamper" {
-                let i: usize = field(&parts, "byte").and_then(|x| x.parse().ok()).unwrap_or(0);
-                let m: u8 = field(&parts, "mask").and_then(|x| x.parse().ok()).unwrap_or(0);
+                let i: usize = field(&parts, "byte")
+                    .and_then(|x| x.parse().ok())
+                    .unwrap_or(0);
+                let m: u8 = field(&parts, "mask")
+                    .and_then(|x| x.parse().ok())
+                    .unwrap_or(0);
                 t[i] ^= m;
             } else {
-                let l: usize = field(&parts, "len").and_then(|x| x.parse().ok()).unwrap_or(0);
+                let l: usize = field(&parts, "len")
+                    .and_then(|x| x.parse().ok())
+                    .unwrap_or(0);
                 t.truncate(l);
             }
             let (d, _) = decode_vs(&p, &t, c.alg, &c.s2c, &c.c2s);
@@ -816,9 +1004,15 @@ fn replay(ctx: &Ctx, trace: &str) -> String {
             format!("{d:?}")
         }
         "grid" => {
-            let alg: u8 = field(&parts, "alg").and_then(|x| x.parse().ok()).unwrap_or(0);
-            let ps: u8 = field(&parts, "ps").and_then(|x| x.parse().ok()).unwrap_or(0);
-            let pc: u8 = field(&parts, "pc").and_then(|x| x.parse().ok()).unwrap_or(0);
+            let alg: u8 = field(&parts, "alg")
+                .and_then(|x| x.parse().ok())
+                .unwrap_or(0);
+            let ps: u8 = field(&parts, "ps")
+                .and_then(|x| x.parse().ok())
+                .unwrap_or(0);
+            let pc: u8 = field(&parts, "pc")
+                .and_then(|x| x.parse().ok())
+                .unwrap_or(0);
             let p = KeySetProvider::new(1);
             let s2c = key_material(alg, ps, 1);
             let c2s = key_material(alg, pc, if ps == pc { 1 } else { 2 });
@@ -868,12 +1062,21 @@ fn check() {
     for h in (0..=hmax).rev() {
         cfgs.push(Cfg { h, start: None });
         for d in 0..=(h as u32 + 2) {
-            cfgs.push(Cfg { h, start: Some(u32::MAX - d) });
+            cfgs.push(Cfg {
+                h,
+                start: Some(u32::MAX - d),
+            });
         }
-        cfgs.push(Cfg { h, start: Some(0x8000_0000) });
+        cfgs.push(Cfg {
+            h,
+            start: Some(0x8000_0000),
+        });
     }
     // (a2) restarts with another history; longest jobs first
-    let rcfgs: Vec<RCfg> = [None, Some(u32::MAX - 1), Some(u32::MAX - 3)].into_iter().map(|start| RCfg { start, hmax: rmax }).collect();
+    let rcfgs: Vec<RCfg> = [None, Some(u32::MAX - 1), Some(u32::MAX - 3)]
+        .into_iter()
+        .map(|start| RCfg { start, hmax: rmax })
+        .collect();
     let (nr, na) = (rcfgs.len() as u64, cfgs.len() as u64);
     common::par_for(nr + na, 1, |i| {
         if i < nr {
@@ -884,7 +1087,11 @@ fn check() {
     });
 
     // (b)
-    let masks: Vec<u8> = if ctx.quick() { (0..8).map(|b| 1u8 << b).collect() } else { (1..=255).collect() };
+    let masks: Vec<u8> = if ctx.quick() {
+        (0..8).map(|b| 1u8 << b).collect()
+    } else {
+        (1..=255).collect()
+    };
     let mut bases = Vec::new();
     for h in 0..=hmax.min(3) {
         for start in [None, Some(u32::MAX - (h as u32) / 2), Some(u32::MAX)] {
